@@ -325,17 +325,22 @@ Proof.
 Qed.
 
 (* ---------- reinstate ---------- *)
+Lemma active_with_pcache w c : active (with_pcache w c) = active w.
+Proof. reflexivity. Qed.
+Lemma passive_with_pcache w c : passive (with_pcache w c) = passive w.
+Proof. reflexivity. Qed.
+
 Lemma reinstate_ok w :
   w_failed w = true -> w_logs w = [] ->
-  (forall n, s_has (active w) n = true -> s_info (passive w) n = s_info (active w) n /\ isSome (s_info (active w) n) = true) ->
+  (forall n, s_has (active w) n = true ->
+     seen_info (w_pcache w) (passive w) n = s_info (active w) n /\ isSome (s_info (active w) n) = true) ->
   (forall n, s_has (active w) n = false -> s_info (passive w) n = s_info (active w) n /\ forall l, s_reg (passive w) n l = s_reg (active w) n l) ->
   snd (step w (OReinstate false)) = ROk /\ synced (fst (step w (OReinstate false))) /\ active (fst (step w (OReinstate false))) = active w.
 Proof.
   intros F G H1 H2. cbn [step]. rewrite F, G. cbn [negb fast_forward fst snd].
-  destruct (flags_with_sides w (active w) (copy_stores (active w) (passive w))) as (A & B & C & _).
   split; [reflexivity|]. split.
-  - unfold synced. cbn [w_failed w_logging w_logs with_flags].
-    rewrite active_with_flags, passive_with_flags, active_with_sides, passive_with_sides.
+  - unfold synced. rewrite active_with_pcache, passive_with_pcache, active_with_flags, passive_with_flags,
+      active_with_sides, passive_with_sides. cbn [w_failed w_logging w_logs with_flags with_pcache].
     split; [reflexivity|]. split; [reflexivity|]. split; [reflexivity|].
     unfold side_eq, copy_stores; cbn [s_has s_info s_reg]. split; [|split].
     + intros n. reflexivity.
@@ -343,5 +348,5 @@ Proof.
     + intros t l. destruct (s_has (active w) t) eqn:E.
       * destruct (H1 t E) as [X Y]. rewrite X, Y. reflexivity.
       * destruct (H2 t E) as [_ Y]. symmetry; apply Y.
-  - rewrite active_with_flags, active_with_sides. reflexivity.
+  - rewrite active_with_pcache, active_with_flags, active_with_sides. reflexivity.
 Qed.
